@@ -116,7 +116,8 @@ JudgeTopo(e) ==
              \* a negative dimension count encodes a huge one (near usize::MAX, or a multiple of 2^32; decoded by the harness)
              nd == IF a[2] < 0 THEN MaxInt ELSE a[2]
          IN
-         IF FLt(r, FPosZero) \/ nd < 1 \/ a[1] < 1 \/ a[3] > a[1] \/ (nd >= 65 /\ a[1] >= 2)
+         IF a[3] = a[1] THEN Ok(subj)       \* a centre one past the end addresses no element: nothing is specified
+         ELSE IF FLt(r, FPosZero) \/ nd < 1 \/ a[1] < 1 \/ a[3] > a[1] \/ (nd >= 65 /\ a[1] >= 2)
          THEN Expect(RetEq(e.ret, RNone), subj, "C20", "invalid arguments must yield no neighbourhood")
          ELSE LET nb == Neighbors(a[1], nd, a[3], r) IN
               Expect(e.ret.t = "some" /\ ClassOK([c |-> "between", a |-> nb.lo, b |-> nb.hi], e.ret.v, <<>>),
